@@ -21,7 +21,7 @@ from . import c13
 LEVEL = "exploration"
 
 COMMENT_CHARS = ["C", "c", "*", "!", "d", "D"]
-CONT_CHARS = ["&", "1", "+", "$"]
+CONT_CHARS = ["&", "1", "+", "$", "x", "A"]   # any character but blank and zero may mark a continuation
 ALL = {**programs.PROGRAMS, **programs.LABEL_PROGRAMS}
 CLASSIFY_ONLY = programs.NODECL_PROGRAMS
 
@@ -135,7 +135,7 @@ def classify_case(job, acc: Acc):
 def main(ctx):
     q = ctx.quick
     ctx.rule = ("equivalence: 7 canonical programs rendered in fixed form x {comment line with each of C c * ! d D in every line "
-                "gap, continuation at every token boundary with each marker & 1 + $, with a comment line between, labels in "
+                "gap, continuation at every token boundary with each marker & 1 + $ x A, with a comment line between, labels in "
                 "columns 1-5, case, CRLF, trailing blanks} (quick: every 3rd gap / 4th boundary per marker) compared with the "
                 "free-form rendering through the exact token map; classification: every free-form layout of C13 and the same "
                 "layouts without indentation must be classified free. Non-trivial: all; distinct by (program, rendering, place).")
